@@ -70,3 +70,57 @@ def determinism(seed, n, only=None):
         print(f"{pid}: {len(base)} seeds x 3 configurations compared")
     print(f"determinism: {total} comparisons, {bad} divergences")
     return 0 if bad == 0 else 2
+
+
+def sensitivity(seed, only=None, budget=30):
+    """DESIGN 2.12: every patch under /verif/mutants and /verif/seeded/*/patch.diff is applied to a
+    scratch copy of /repo/src (removed afterwards) and the quick check of its property must report
+    an unlisted violation.  Results go to /verif/evidence/sensitivity.json (not a property check)."""
+    import glob, shutil, tempfile
+    from .env import pinned_env
+    from .runner import CHECK, PY, VERIF, EVIDENCE_DIR
+
+    items = []
+    meta = {}
+    mp = os.path.join(VERIF, "mutants", "meta.json")
+    if os.path.exists(mp):
+        meta = json.load(open(mp))
+    for p in sorted(glob.glob(os.path.join(VERIF, "mutants", "*.patch"))):
+        mid = os.path.basename(p)[:-6]
+        m = meta.get(mid, {})
+        items.append((mid, m.get("property", mid.split("-")[0]), p, 1, m.get("expect_detect", True)))
+    for d in sorted(glob.glob(os.path.join(VERIF, "seeded", "*"))):
+        p = os.path.join(d, "patch.diff")
+        mf = os.path.join(d, "meta.json")
+        if os.path.exists(p) and os.path.exists(mf):
+            m = json.load(open(mf))
+            for prop in m.get("checks", [m["property"]]):
+                items.append((os.path.basename(d), prop, p, 1, m.get("expect_detect", True)))
+    results = []
+    for mid, prop, patch, strip, expect in items:
+        if only and only not in (mid, prop):
+            continue
+        d = tempfile.mkdtemp(prefix="mgsim-mut-")
+        try:
+            os.makedirs(os.path.join(d, "repo"))
+            shutil.copytree("/repo/src", os.path.join(d, "repo", "src"))
+            r = subprocess.run(["patch", "-p1", "-s", "-i", patch], cwd=os.path.join(d, "repo"), capture_output=True, text=True)
+            if r.returncode != 0:
+                results.append({"mutant": mid, "property": prop, "status": "patch_failed", "detail": (r.stdout + r.stderr)[-300:]})
+                print(f"{mid:50s} {prop}  PATCH FAILED")
+                continue
+            env = pinned_env({"MGSIM_REPO_SRC": os.path.join(d, "repo", "src"), "MGSIM_NO_EVIDENCE": "1"})
+            t0 = time.time()
+            r = subprocess.run([PY, CHECK, prop, "--budget", str(budget), "--seed", str(seed)], env=env, capture_output=True, text=True, cwd=VERIF)
+            viol = [l for l in r.stdout.splitlines() if l.startswith("violation:")]
+            status = {0: "missed", 1: "detected", 2: "harness_error"}.get(r.returncode, f"exit{r.returncode}")
+            results.append({"mutant": mid, "property": prop, "status": status, "expected_detect": expect, "wall_s": round(time.time() - t0, 1), "first_violation": viol[0][:300] if viol else None})
+            print(f"{mid:50s} {prop}  {status:14s} {viol[0][:150] if viol else ''}")
+        finally:
+            shutil.rmtree(d, ignore_errors=True)
+    if not only:
+        os.makedirs(EVIDENCE_DIR, exist_ok=True)
+        json.dump({"seed": seed, "budget_s": budget, "results": results}, open(os.path.join(EVIDENCE_DIR, "sensitivity.json"), "w"), indent=1)
+    bad = [r for r in results if (r["status"] == "detected") != r.get("expected_detect", True)]
+    print(f"sensitivity: {len(results)} mutants, {len(results) - len(bad)} as expected, {len(bad)} not")
+    return 0
